@@ -112,6 +112,8 @@ def _env_of(interp, frame, extra):
 
 
 def _havoc(interp, frame, spec, modified_names, tag):
+    """returns the set of (id(object), attribute) pairs of the object fields declared in `modifies`"""
+    declared_fields = set()
     from .api import MListOf as _MListOf
     for name in modified_names:
         ty = spec.modifies.get(name)
@@ -177,6 +179,9 @@ def _havoc(interp, frame, spec, modified_names, tag):
                 for a in parts[1:-1]:
                     obj = interp.getattr(obj, a)
                 attr = parts[-1]
+                if isinstance(obj, (SOpt, SChoice)):
+                    obj = interp.resolve(obj)
+                declared_fields.add((id(obj), attr))
                 if isinstance(ty, MListOf):
                     cur = interp.getattr(obj, attr)
                     if isinstance(cur, list):
@@ -191,6 +196,7 @@ def _havoc(interp, frame, spec, modified_names, tag):
                 interp.setattr(obj, attr, ty.make(interp, '%s@%s' % (name, tag)))
             else:
                 frame.locals[name] = ty.make(interp, '%s@%s' % (name, tag))
+    return declared_fields
 
 
 def _check_frame(spec, node):
@@ -221,7 +227,7 @@ def exec_while(interp, node, frame):
     inv0 = interp.truth(_call_pred(interp, spec.invariant, _env_of(interp, frame, {})))
     st.oblige(label + ' invariant[entry]', inv0, {'kind': 'loop-entry'})
     which = st.choose(2)
-    _havoc(interp, frame, spec, modified, 'L%s' % ordinal)
+    declared_fields = _havoc(interp, frame, spec, modified, 'L%s' % ordinal)
     from . import strings as _strings
     _strings.forget_dead_pieces(interp)
     inv = interp.truth(_call_pred(interp, spec.invariant, _env_of(interp, frame, {})))
@@ -234,7 +240,11 @@ def exec_while(interp, node, frame):
         dec0 = None
         if spec.decreases is not None:
             dec0 = _call_pred(interp, spec.decreases, _env_of(interp, frame, {}))
-        r = interp.exec_block(node.body, frame)
+        interp.loop_frame_stack.append({'declared': declared_fields, 'born': set(), 'loop': label})
+        try:
+            r = interp.exec_block(node.body, frame)
+        finally:
+            interp.loop_frame_stack.pop()
         if r is not None and r[0] not in ('continue',):
             if r[0] == 'break':
                 return None
@@ -337,7 +347,7 @@ def _for_symbolic(interp, node, frame, src):
     st.oblige(label + ' invariant[entry]', inv0, {'kind': 'loop-entry'})
     which = st.choose(2)
     tag = 'L%s' % ordinal
-    _havoc(interp, frame, spec, modified, tag)
+    declared_fields = _havoc(interp, frame, spec, modified, tag)
     from . import strings as _strings
     _strings.forget_dead_pieces(interp)
     if which == 0:
@@ -351,10 +361,12 @@ def _for_symbolic(interp, node, frame, src):
             it_cell.pos = wrap(i + 1)
         interp.assign(node.target, x, frame)
         interp.loop_index_stack.append(i)
+        interp.loop_frame_stack.append({'declared': declared_fields, 'born': set(), 'loop': label})
         try:
             r = interp.exec_block(node.body, frame)
         finally:
             interp.loop_index_stack.pop()
+            interp.loop_frame_stack.pop()
         if r is not None and r[0] != 'continue':
             if r[0] == 'break':
                 return None
